@@ -106,7 +106,8 @@ def run(tier, wd):
                        "raises and at least two hooks run; plus sampled vectors for depth 4..6 walked by TLC through the same machine" % maxd)
     rep.assumptions += ["the harness's exit stub panics with a sentinel instead of returning (a stub that returns makes the After chain run twice: "
                         "TLC shows this with ExiterReturns=TRUE); the real os.Exit is used in the child-process sample",
-                        "panic values are distinct pointers per hook, so 'unchanged' is pointer identity"]
+                        "panic values are distinct per hook and of three dynamic types (pointer, pointer implementing error, string); 'unchanged' is identity/equality with the raised value",
+                        "an error returned by Run on a valid invocation is a violation (a raised value must be re-raised, not returned)"]
     return rep.finish()
 
 
